@@ -8,6 +8,7 @@ import (
 	"fmt"
 	"strings"
 	"testing"
+	"time"
 
 	"github.com/6tail/lunar-go/SolarUtil"
 	"github.com/6tail/lunar-go/calendar"
@@ -71,6 +72,24 @@ var weeks = ev.Register(&ev.P[weekCase]{
 		y, m, d := ref.FromJDN(c.J)
 		w := calendar.NewSolarWeekFromYmd(y, m, d, c.Start)
 		desc := fmt.Sprintf("week of %s start=%d", fmtJ(c.J), c.Start)
+		// the time.Time constructors of all five units name the unit of the time's own calendar fields (midnight UTC of
+		// 0001-01-01 — Go's zero time — included, with any clock time and location otherwise)
+		{
+			hh, ns, loc := (c.J*5)%24, []int{0, 999999999, 1}[c.J%3], []*time.Location{time.UTC, time.Local, time.FixedZone("E8", 8*3600)}[(c.J/3)%3]
+			if c.J%4 == 0 || c.J == ref.JDNMin {
+				hh, ns, loc = 0, 0, time.UTC
+			}
+			tm := time.Date(y, time.Month(m), d, hh, 0, 0, ns, loc)
+			if tm.Year() == y && int(tm.Month()) == m && tm.Day() == d { // not normalised by the standard library
+				wk := calendar.NewSolarWeekFromDate(tm, c.Start)
+				mo, se, ha, ye := calendar.NewSolarMonthFromDate(tm), calendar.NewSolarSeasonFromDate(tm), calendar.NewSolarHalfYearFromDate(tm), calendar.NewSolarYearFromDate(tm)
+				if wk.GetYear() != y || wk.GetMonth() != m || wk.GetDay() != d || ymd(wk.GetFirstDay()) != ymd(w.GetFirstDay()) || wk.GetIndex() != w.GetIndex() ||
+					mo.GetYear() != y || mo.GetMonth() != m || se.GetYear() != y || se.GetIndex() != (m+2)/3 || ha.GetYear() != y || ha.GetIndex() != (m+5)/6 || ye.GetYear() != y {
+					return fmt.Errorf("%s: the time.Time constructors for %v give week %d-%d-%d index %d, month %d-%d, season %d.%d, half-year %d.%d, year %d", desc, tm, wk.GetYear(), wk.GetMonth(), wk.GetDay(), wk.GetIndex(),
+						mo.GetYear(), mo.GetMonth(), se.GetYear(), se.GetIndex(), ha.GetYear(), ha.GetIndex(), ye.GetYear())
+				}
+			}
+		}
 		fj := firstDayJ(c.J, c.Start)
 		if g := ymd(w.GetFirstDay()); g != fmtJ(fj) {
 			return fmt.Errorf("%s: GetFirstDay=%s, model says %s", desc, g, fmtJ(fj))
@@ -390,6 +409,15 @@ func TestC15(t *testing.T) {
 				for _, n := range []int{0, 1, -1, 2, -2, 5, -5} {
 					weeks.Eval(weekCase{j, s, n})
 				}
+			}
+		}
+	}
+	// the ends of the supported range, every first weekday (0001-01-01 00:00:00 UTC is also Go's zero time)
+	if ev.Shard == 0 {
+		for _, j := range []int{ref.JDNMin, ref.JDNMin + 1, ref.JDNMin + 6, ref.JDNMax - 1, ref.JDNMax - 8} {
+			for st := 0; st < 7; st++ {
+				weeks.Eval(weekCase{j, st, 0})
+				weeks.Eval(weekCase{j, st, 1})
 			}
 		}
 	}
